@@ -65,6 +65,31 @@ def _const_bits(v, w):
     return [(v >> i) & 1 for i in range(w)]
 
 
+_ATLEAST = {}
+
+
+def _at_least(bits, k):
+    """Bit: at least k of `bits` are set (sequential counter: ge[j] after each bit, j = 1..k)"""
+    n = len(bits)
+    if k <= 0:
+        return 1
+    if k > n:
+        return 0
+    key = (tuple(b.key if b.__class__ is Bit else b for b in bits), k)
+    r = _ATLEAST.get(key)
+    if r is not None:
+        return r
+    ge = [0] * (k + 1)          # ge[j]: at least j set among the bits seen so far; ge[0] = 1
+    ge[0] = 1
+    for b in bits:
+        for j in range(k, 0, -1):
+            ge[j] = bor(ge[j], band(ge[j - 1], b))
+    if len(_ATLEAST) > 20000:
+        _ATLEAST.clear()
+    _ATLEAST[key] = ge[k]
+    return ge[k]
+
+
 class SInt:
     __slots__ = ("terms", "const", "_tc", "_iv")
 
@@ -397,7 +422,32 @@ class SInt:
             return True
         if lo >= 0:
             return False
+        card = d._cardinality()
+        if card is not None:
+            sign, bits, c0 = card
+            if sign > 0:
+                # sum(bits) + c0 < 0   <=>   not (sum(bits) >= -c0)
+                return _tobool(bnot(_at_least(bits, -c0)))
+            # -sum(bits) + c0 < 0  <=>   sum(bits) >= c0 + 1
+            return _tobool(_at_least(bits, c0 + 1))
         return _tobool(d.tc()[-1])
+
+    def _cardinality(self):
+        """(sign, [bits], const) when the value is  sign * (sum of >= 4 distinct single bits) + const — the population-count shape.
+        Thresholds on such sums are encoded as a sequential counter (monotone AND/OR network) instead of a chain of binary adders:
+        in XOR-normal form an adder chain becomes very long XOR clauses that CDCL solvers handle badly."""
+        if len(self.terms) < 4:
+            return None
+        sign = 0
+        bits = []
+        for c, a in self.terms.values():
+            if len(a.bits) != 1 or (c != 1 and c != -1):
+                return None
+            if sign and c != sign:
+                return None
+            sign = c
+            bits.append(a.bits[0])
+        return sign, bits, self.const
 
     def __lt__(self, o):
         if SInt.of(o) is NotImplemented: return NotImplemented
